@@ -363,7 +363,23 @@ func ruleValidateSchema(c *Ctx, r *Repo, rule string) {
 		c.Fail(rule, "validateSchema|missing", "internal/template_generator.go", "validateSchema not found")
 	} else {
 		c.Func(funcKey(ip, fd))
-		paths, _ := enumerateFunc(info, fd)
+		// local closures (a shared "verify and wrap the error" helper, say) and private helpers are followed
+		follow := func() *dtEnum {
+			d := newDT(info)
+			d.callInline = map[*types.Func]*ast.FuncDecl{}
+			for fn, g := range pkgUnexported(ip) {
+				if g != fd && g.Recv == nil {
+					d.callInline[fn] = g
+				}
+			}
+			d.closureFiles = ip.Syntax
+			d.hoistCalls = true
+			return d
+		}
+		fde := follow()
+		fde.paths = nil
+		fde.stmts(seedEnv(fde, fd), fd.Body.List, func(p *dtPath) { fde.finish(p, "end") })
+		paths := fde.paths
 		okNil, okFile := false, true
 		for _, p := range paths {
 			if v, has := p.atom("ARG2 == nil"); has && v {
@@ -468,8 +484,8 @@ func ruleValidateSchema(c *Ctx, r *Repo, rule string) {
 		} else if rs == nil {
 			c.Fail(rule, "validateSchema|interface-loop", r.Pos(fd.Pos()), "no loop over data.Interfaces")
 		} else {
-			d := newDT(info)
-			start := seedEnv(d, fd)
+			d := follow()
+			start := d.envBefore(seedEnv(d, fd), fd.Body.List, rs)
 			if v, ok := rs.Value.(*ast.Ident); ok {
 				start.env[info.Defs[v]] = "ELEM"
 			}
